@@ -14,7 +14,8 @@ RULE = (
     "cases = (ADMG, disjoint non-empty X,Y) through the real identify_outcomes / identify; EXHAUSTIVE over all "
     "ADMGs on <=3 labelled nodes x all disjoint non-empty (X,Y); random ADMGs n=4..8 with every hostile class "
     "(isolated treatment/outcome, X not ancestor of Y, X u Y = V, several districts); 40-call histories on one "
-    "shared graph object. Monitors: exception recorder (anything but the refusal is a violation), verdict vs the "
+    "shared graph object; edit histories (call, edit the same graph object in place through add_/remove_ edge or "
+    "add_node, call again; one caller-owned Query reused across graphs). Monitors: exception recorder (anything but the refusal is a violation), verdict vs the "
     "Tian-Pearl reference (O4), deep freeze of graph and query objects before/after, activation-count bound. "
     "non-trivial = graph has a bidirected edge and the trace reaches line 4 or later; distinct by (graph,X,Y)."
 )
@@ -92,6 +93,35 @@ def run_shard(ctx):
                 run_case(ctx, g, gd, q, via=rng.choice(["outcomes", "identify"]))
         if freeze_graph(g) != fz:
             kernel.violation(PROP, "graph-unchanged", "graph changed over a 40-call history", case={"graph": gd})
+    # edit histories: call, edit the SAME graph object in place, call again (and keep one Query object across calls)
+    from y0.algorithm.identify import Identification, Query, identify
+    from y0.algorithm.identify.utils import Unidentifiable
+    from y0.dsl import Variable
+
+    for _ in range(ctx.share({"quick": 160, "thorough": 4000}[ctx.tier])):
+        gd = gg.random_admg(rng, rng.randint(3, 6))
+        g = gg.to_nx(gd)
+        for _s in range(12):
+            q = gq.random_query(rng, gd, max_size=2)
+            if q:
+                run_case(ctx, g, gd, q, via=rng.choice(["outcomes", "identify", "outcomes"]))
+            if rng.random() < 0.6:
+                gd = gg.edit_inplace(g, gd, rng)
+        # one caller-owned Query reused on two graphs
+        q = gq.random_query(rng, gd, max_size=2)
+        if q:
+            query = Query(outcomes={Variable(y) for y in q["Y"]}, treatments={Variable(x) for x in q["X"]})
+            for gd2 in (gd, gg.mutate(gd, rng)):
+                if not (set(q["X"]) | set(q["Y"])) <= set(gd2["nodes"]):
+                    continue
+                kernel.LOG.reset_case({"graph": gd2, "X": q["X"], "Y": q["Y"], "via": "shared-query"})
+                try:
+                    identify(Identification(query=query, graph=gg.to_nx(gd2)))
+                except Unidentifiable:
+                    pass
+                except Exception:  # noqa: BLE001
+                    pass
+                ctx.case(f"{gg.key(gd2)}|{q['X']}|{q['Y']}|shared", False)
     ctx.extras["hostile_classes"] = hostile_seen
     ctx.extras["query_classes"] = qcls
 
